@@ -289,9 +289,18 @@ func (a *FuncAn) lin0(v ssa.Value) Lin {
 				a.lemma(Add(AtomLin(at), a.LenOf(x.Call.Args[0]), -1))
 				return AtomLin(at)
 			case "copy":
+				// n <= len(dst), n <= len(src). The lengths may be expressions of slice operations that are only
+				// known to be >= 0 after those operations succeeded, so the bounds are released only where the
+				// state already entails that (a global lemma n <= L with n >= 0 would smuggle in L >= 0).
 				at := a.valueAtom(v, true)
-				a.lemma(Add(a.LenOf(x.Call.Args[0]), AtomLin(at), -1))
-				a.lemma(Add(a.LenOf(x.Call.Args[1]), AtomLin(at), -1))
+				for _, arg := range x.Call.Args[:2] {
+					l := a.LenOf(arg)
+					if l.synNonNeg() {
+						a.lemma(Add(l, AtomLin(at), -1))
+					} else {
+						a.conds = append(a.conds, condLemma{pre: []Lin{l}, post: []Lin{Add(l, AtomLin(at), -1)}, why: "copy count bounded by a length known to be non-negative"})
+					}
+				}
 				return AtomLin(at)
 			case "min", "max":
 				return a.opaque(v)
